@@ -400,6 +400,29 @@ func Generate(r *rng.R, p Profile) fw.Case {
 			} else {
 				g.newSet()
 			}
+		case p.Inter && p.Drain && g.nTx > 0 && r.Chance(1, 12):
+			// a re-synchronisation that is itself overtaken: the device restarts, a new master is elected,
+			// the configuration reconciler starts to re-send - and the device restarts again (new connection,
+			// new election) right after one of the re-sent requests / before the status write
+			t := g.targets[r.Intn(len(g.targets))]
+			restart := func() string {
+				for rid, rt := range g.rels {
+					if rt == t {
+						delete(g.rels, rid)
+					}
+				}
+				g.nextRel++
+				g.rels[g.nextRel] = t
+				return fmt.Sprintf("F.devrestart.%d+F.relup.%d.%d", t, g.nextRel, t)
+			}
+			for _, f := range strings.Split(restart(), "+") {
+				g.do("v2.fault " + strings.ReplaceAll(strings.TrimPrefix(f, "F."), ".", " "))
+			}
+			g.do(fmt.Sprintf("v2.run mast:%d", t))
+			g.do(fmt.Sprintf("v2.run cfg:%d", t))
+			g.do(fmt.Sprintf("v2.run cfg:%d inter=%s%d:%s+mast:%d", t, g.mode(), r.Intn(3), restart(), t))
+			g.tags["pre-empted"], g.tags["resync-overtaken"] = true, true
+			g.enqueue(fmt.Sprintf("mast:%d", t), fmt.Sprintf("cfg:%d", t))
 		case p.Faults && (r.Chance(1, 12) || (p.FaultBias && r.Chance(1, 6))):
 			t := g.fault()
 			if p.Inter && t > 0 && r.Chance(1, 2) {
